@@ -73,7 +73,8 @@ STEPS = ('append_leaf', 'append_outer', 'append_earlier', 'append_dup', 'extend_
 def view_cases(draw):
     b = draw(c02_base().filter(lambda b: b['kind'] == 'ih'))
     steps = draw(st.lists(st.fixed_dictionaries({'s': st.sampled_from(STEPS), 'i': st.integers(0, 30), 'j': st.integers(0, 30),
-                                                 'read': st.sampled_from(['values', 'len', 'iter', 'lookup', 'none', 'values_at_depth'])}), max_size=8))
+                                                 'read': st.sampled_from(['values', 'len', 'iter', 'lookup', 'none', 'values_at_depth']),
+                                                 'quiet': st.booleans()}), max_size=8))
     return {'base': b, 'steps': steps}
 
 
@@ -193,11 +194,19 @@ def check_views(case):
                 continue
             else:
                 pass
+            if st_.get('quiet') and s in ('append_leaf', 'append_outer', 'extend_new') and len(model) != len(before):
+                # leave the grown index unobserved: the next step (another append, a static copy) meets whatever
+                # lazily rebuilt state the growth left behind
+                classes.append('unobserved-growth')
+                continue
             views_agree(ih, model, 'after %s' % s)
             if grown:
                 reads_after_growth += 1
             for fz, fm in frozen:
                 views_agree(fz, fm, 'earlier static/copy after %s' % s)
+        views_agree(ih, model, 'at end')
+        for fz, fm in frozen:
+            views_agree(fz, fm, 'static/copy at end')
     ragged = len({sum(1 for m in model if eq(canon(m[0]), canon(o))) for o in [m[0] for m in model]}) > 1
     return {'nt': (ragged and len(model) >= 3) or reads_after_growth > 0, 'cls': classes + (['grown'] if grown else [])}
 
